@@ -36,7 +36,7 @@ type Ref struct {
 }
 
 type Case struct {
-	Op    string   `json:"op"`            // fromstr32 (also checks PathOf) | sub (the same on Ref) | pathsof | maxstr
+	Op    string   `json:"op"`            // fromstr32 (also checks PathOf) | sub (the same on Ref) | pathsof | maxstr | bigstr
 	Cut   int      `json:"cut,omitempty"` // maxstr: the string is the maximum string (2^28 bytes, gen.MaxString) without its last Cut bytes
 	S     vk.Hex   `json:"s,omitempty"`
 	Ref   *Ref     `json:"ref,omitempty"` // sub
@@ -48,6 +48,14 @@ type Case struct {
 	Laid  bool     `json:"laid,omitempty"` // pathsof: the list is Idx over Refs even when Idx is empty (an empty list of keys)
 	Dedup bool     `json:"dedup,omitempty"`
 	Class string   `json:"class,omitempty"`
+	Len   int64    `json:"len,omitempty"`  // bigstr: the string has Len bytes (up to 2^29; content: bigByte)
+	Wins  []Win    `json:"wins,omitempty"` // bigstr: the windows looked at in that one string
+}
+
+// Win is one (start bit, width) of a bigstr case.
+type Win struct {
+	From int32 `json:"from"`
+	W    int   `json:"w"`
 }
 
 var checker = &vk.Checker[Case]{
@@ -55,7 +63,9 @@ var checker = &vk.Checker[Case]{
 	Rule: "byte strings over the full alphabet (00/01/7f/80/ff boosted, literal length 0..40, thorough 0..200; substrings of a 16 MiB pseudo-random pool with all-ff / all-00 blocks, length log-uniform 0..2^22 (thorough 2^24) with 2^k-1, 2^k, 2^k+1 boosted, at every address alignment or as an own heap copy; literals reach the library as an own heap string or as a substring at an odd address, by checksum) x start bit (inside uniform and log-uniform, at every alignment, around '16 bytes left after the start byte', exactly at the end, just beyond, far beyond up to 2^31-1-32, up to MaxInt32 for PathOf) x width 0..32; FromStr32 and PathOf (height = width) against bit-by-bit extraction from the description of the string, PathStr(PathOf) against the bits as text; " +
 		"PathsOf on key lists with adjacent and non-adjacent repeats, dedup on/off, nil / empty list, against an own map+drop-equal-to-predecessor loop (including the all-ones window at height 32): literal lists of 0..12 keys with start bit < 200, and lists of 0..2^13 (thorough 2^15) positions, log-uniform, laid in runs / cycles / every m-th / independently over 1..6 distinct keys that end before the start bit, inside the window or far behind it (pool substrings, own copies, prefixes of one another, literal ff runs), start bit log-uniform up to 2^27. " +
 		"Grid: every (start bit mod 8, width, bytes remaining 0..6) x 2 leads x 24 fixed contents; (start bit mod 8, 12 widths, bytes remaining 7..40) x 2 leads on pool substrings and own copies; string lengths, PathsOf start bytes and PathsOf list lengths at 2^k-1, 2^k, 2^k+1 and three seed-dependent values in every octave (lengths to 2^24, start bits to 2^27, lists to 2^14; lists of >= 100 keys under every GOMAXPROCS setting in the procs process). " +
+		"PathsOf lists that cross the 32768 / 65536 / 131072 key marks (65538 and 131073 short literal keys; thorough also 32767..32770, 65535..65537, 98305, 131071..131074, 262145 and the list-length sweep to 2^17): one key throughout, and cycles over three keys in runs of 2 and of 3 (a run of equal paths across every mark, a change of path exactly at it), dedup on and off. " +
 		"Last: the 2^28-byte string and its substrings: lengths over every octave to 2^28 ending at its 13 non-zero last bytes with start bits around the end (to 2^31-1), and its two non-zero middle bytes placed at byte X for X over every octave to 2^27, also through PathsOf. " +
+		"Thorough tier only: ONE string of 2^29 bytes (8*len = 2^32; non-zero bytes at its head, around bit 2^31 and at its end), FromStr32 / PathOf / PathsOf at nine windows: at the head, ending at bit 2^31-1, across bit 2^31 and starting at MaxInt32 (no longer string in any tier: 512 MiB is the memory budget). " +
 		"Non-trivial: the span touches >= 2 bytes and (start not byte aligned or the string ends inside the span); PathsOf: >= 2 keys with dedup and at least one dropped or an all-ones path. Distinct by hash of the case.",
 	Check:    check,
 	Classify: classify,
@@ -338,6 +348,93 @@ func checkMaxStr(from int32, w, cut int) *vk.Failure {
 	return nil
 }
 
+// bigByte is byte i of the string of n bytes of a bigstr case (its description): pseudo-random odd bytes at the head,
+// around bit 2^31 (byte 2^28) and at the end, zero elsewhere (so that the memory behind it stays untouched zero pages).
+func bigByte(i, n int64) byte {
+	const mid = int64(1) << 28
+	if i < 0 || i >= n {
+		return 0
+	}
+	if i < 4 || i >= n-8 || (i >= mid-8 && i < mid+8) {
+		return byte(vk.Mix(uint64(i)*0x9e3779b97f4a7c15+0xb16)>>56) | 1
+	}
+	return 0
+}
+
+const bigStrMax = int64(1) << 29
+
+// bigStrSet lists the positions of the non-zero bytes of the string of n bytes.
+func bigStrSet(n int64) []int64 {
+	var out []int64
+	for _, lo := range []int64{0, 1<<28 - 8, n - 8} {
+		for i := max(lo, 0); i < lo+16 && i < n; i++ {
+			if bigByte(i, n) != 0 && (len(out) == 0 || out[len(out)-1] < i) {
+				out = append(out, i)
+			}
+		}
+	}
+	return out
+}
+
+// checkBigStr: ONE string of c.Len bytes (more than the 2^28 of the maximum string: 8*len reaches 2^32), built for this case
+// only and dropped afterwards; FromStr32 / PathOf / PathStr and PathsOf at every window of the case.
+func checkBigStr(c Case) *vk.Failure {
+	n := c.Len
+	if n < 1 || n > bigStrMax || len(c.Wins) > 64 {
+		return nil
+	}
+	buf := make([]byte, n)
+	set := bigStrSet(n)
+	for _, i := range set {
+		buf[i] = bigByte(i, n)
+	}
+	s := unsafe.String(&buf[0], n)
+	x := text{n: n, at: func(i int64) byte { return bigByte(i, n) }, desc: func() string {
+		return fmt.Sprintf("string of %d bytes (non-zero bytes at %d, zero elsewhere)", n, set)
+	}}
+	for _, wn := range c.Wins {
+		if wn.From < 0 || wn.W < 0 || wn.W > 32 {
+			continue
+		}
+		if f := checkText(s, x, wn.From, wn.W); f != nil {
+			return f
+		}
+		ws, _ := wantPathT(x, wn.From, wn.W)
+		wt, _ := wantPathT(text{n: n - 1, at: x.at}, wn.From, wn.W)
+		wa, _ := wantPath("A", wn.From, wn.W)
+		var want []uint64
+		for i, p := range []uint64{ws, ws, wa, wt, ws} {
+			if i == 0 || p != want[len(want)-1] {
+				want = append(want, p)
+			}
+		}
+		var got []uint64
+		if f := vk.TryF(func() string {
+			return fmt.Sprintf("PathsOf([s, s, \"A\", s without its last byte, s], %d, %d, true) with s a %s", wn.From, wn.W, x.desc())
+		}, func() {
+			got = bmtree.PathsOf([]string{s, s, "A", s[:n-1], s}, wn.From, int32(wn.W), true)
+		}); f != nil {
+			return f
+		}
+		if fmt.Sprint(got) != fmt.Sprint(want) {
+			return vk.Failf("pathsof", "PathsOf([s, s, \"A\", s without its last byte, s], from=%d, h=%d, dedup) with s a %s = %#x, want %#x", wn.From, wn.W, x.desc(), got, want)
+		}
+	}
+	for _, i := range set {
+		for j := max(i-1, 0); j <= i+1 && j < n; j++ {
+			if buf[j] != bigByte(j, n) {
+				return vk.Failf("mutates", "byte %d of the string argument of %d bytes was modified", j, n)
+			}
+		}
+	}
+	for j := int64(5); j < n; j += 1 << 19 {
+		if buf[j] != bigByte(j, n) {
+			return vk.Failf("mutates", "byte %d of the string argument of %d bytes was modified", j, n)
+		}
+	}
+	return nil
+}
+
 func checkPathsOf(c Case) *vk.Failure {
 	kl, ok := c.keyList()
 	if !ok || c.From < 0 || c.W < 0 || c.W > 32 {
@@ -430,6 +527,8 @@ func check(c Case) *vk.Failure {
 		return checkMaxStr(c.From, c.W, c.Cut)
 	case "pathsof":
 		return checkPathsOf(c)
+	case "bigstr":
+		return checkBigStr(c)
 	case "sub":
 		if c.Ref == nil || !c.Ref.valid() {
 			return nil
@@ -471,6 +570,10 @@ func octave(n int64) string {
 func classify(c Case) (bool, []string) {
 	if c.Op == "maxstr" {
 		return true, []string{"op:maxstr", "maximum-string(2^28 bytes)"}
+	}
+	if c.Op == "bigstr" {
+		ok := c.Len >= 1 && c.Len <= bigStrMax && len(c.Wins) > 0 && len(c.Wins) <= 64
+		return ok, []string{"op:bigstr", "len:" + octave(c.Len), fmt.Sprintf("windows:%d", len(c.Wins))}
 	}
 	labels := []string{"op:" + c.Op, "class:" + c.Class}
 	if c.Op == "pathsof" {
@@ -949,7 +1052,7 @@ func TestGrid(t *testing.T) {
 		}
 	}
 	// PathsOf list lengths over every octave up to 2^14 (the large ones under every GOMAXPROCS setting of a procs process)
-	for _, n64 := range sweepSizes(0, vk.Pick(13, 15), 40000, 3) {
+	for _, n64 := range sweepSizes(0, vk.Pick(13, 17), vk.Pick[int64](40000, 140000), 3) {
 		n := int(n64)
 		z := vk.Mix(uint64(n)*0x9e3779b97f4a7c15 + 3)
 		from := []int64{0, 3, 77, 8*1000 + 5}[z>>20&3]
@@ -981,6 +1084,34 @@ func TestGrid(t *testing.T) {
 			for _, dedup := range []bool{true, false} {
 				checker.Run(t, Case{Op: "pathsof", Keys: keys, From: 0, W: 24, Dedup: dedup, Class: "grid-long-list"})
 				checker.Run(t, Case{Op: "pathsof", Keys: keys, From: 3, W: 32, Dedup: dedup, Class: "grid-long-list"})
+			}
+		}
+	}
+	// key lists that cross the 32768 / 65536 / 131072 key marks (a 16-bit or 17-bit key index, work done in blocks of 64K keys):
+	// one key throughout (a run of equal paths across every mark); three keys in runs of 3 (i/3: positions 32767|32768,
+	// 65535|65536, 131071|131072 are inside one run) and in runs of 2 (i/2: the path changes exactly at every mark and
+	// repeats right after it). Short literal keys; "a" and "a\x00" have the same path at height 8.
+	marks := []int{65538, 131073}
+	if vk.Thorough() {
+		marks = []int{32767, 32768, 32769, 32770, 65535, 65536, 65537, 65538, 98305, 131071, 131072, 131073, 131074, 262145}
+	}
+	markRefs := []Ref{{S: vk.Hex("a")}, {S: vk.Hex("b")}, {S: vk.Hex("a\x00")}}
+	for _, n := range marks {
+		for li, lay := range []struct {
+			refs []Ref
+			seed uint64 // buildIdx style 1: runs of 1+seed%3
+		}{{markRefs[:1], 0}, {markRefs, 2}, {markRefs, 1}} {
+			idx := buildIdx(1, lay.seed, n, len(lay.refs))
+			for _, dedup := range []bool{true, false} {
+				if !dedup && !vk.Thorough() && (li != 1 || n != marks[0]) {
+					continue
+				}
+				for _, fh := range [][2]int{{0, 8}, {3, 32}} {
+					if fh[0] != 0 && !vk.Thorough() && li == 0 {
+						continue
+					}
+					checker.Run(t, Case{Op: "pathsof", Refs: lay.refs, Laid: true, Idx: idx, From: int32(fh[0]), W: fh[1], Dedup: dedup, Class: "grid-list-across-64k-marks"})
+				}
 			}
 		}
 	}
@@ -1053,6 +1184,14 @@ func TestLast(t *testing.T) {
 				run(Case{Op: "pathsof", Refs: []Ref{long, dup, one, one, all, {S: vk.Hex("A")}, long}, From: i32(from), W: h, Dedup: X&1 == 0, Class: "last-maxstring-middle-sweep"})
 			}
 		}
+	}
+	// thorough tier only: ONE string of more than 2^28 bytes - 2^29 bytes, 8*len = 2^32 (built for this case, dropped after it):
+	// windows at the head, ending at bit 2^31-1 (the last end bit FromStr32 can be told), across bit 2^31 and starting at MaxInt32
+	if vk.Thorough() {
+		const top = math.MaxInt32
+		checker.Run(t, Case{Op: "bigstr", Len: bigStrMax, Class: "last-string-of-2^29-bytes", Wins: []Win{
+			{0, 8}, {5, 32}, {top - 32, 32}, {top - 8, 8}, {top - 20, 32}, {top - 7, 8}, {top, 8}, {top, 32}, {top, 1},
+		}})
 	}
 	checker.RegressLast(t)
 }
